@@ -175,7 +175,7 @@ func runC16(c *Ctx) {
 	w := GetATWorld()
 	xa := w.OpenXA()
 	rng := NewRng(c.Seed)
-	n := c.Budget(200, 6000)
+	n := c.Budget(200, 20000)
 	// statements that touch exactly / about a multiple of the image queries' IN-list size (1000 keys)
 	bigs := []int{1000, 1001}
 	if c.Tier == "thorough" {
